@@ -1,5 +1,6 @@
 import RsddModel.Model.GenVTree
 import RsddModel.Model.VTree
+import RsddModel.Model.Orders
 import RsddModel.Lemmas.TieVTreeAux
 import RsddModel.Lemmas.DTree
 /-!
@@ -342,7 +343,8 @@ theorem elimStep_total (f : List DTree → Nat → Option (List DTree))
       | cons a as => rfl
     rw [hne]; rfl
 
-theorem fromCnf_tie : Gen.VT.fromCnf = DTree.fromCnf := by
+/-- `DTree::from_cnf` reads its `&VarOrder` argument only through `in_order_iter()` (the `pos_to_var` list) -/
+theorem fromCnf_tie : Gen.VT.fromCnf = fun (cs : Spec.Cnf) (o : Orders.VarOrder) => DTree.fromCnf cs o.inOrder := by
   first
   | rfl
   | (funext cs eo
@@ -351,7 +353,7 @@ theorem fromCnf_tie : Gen.VT.fromCnf = DTree.fromCnf := by
        (elimStep_total _ (by intro s o; simp [getVars_tie, balanced_tie, initVars_tie]))]
      have hl : (fun c => DTree.initVars (DTree.leaf c [] [])) = DTree.leafOf := rfl
      simp only [Option.bind_some, balanced_tie, initVars_tie, genCutset_tie, DTree.components, hl]
-     cases DTree.balanced (List.foldl DTree.elimStep (List.map DTree.leafOf cs) eo) <;> rfl)
+     cases DTree.balanced (List.foldl DTree.elimStep (List.map DTree.leafOf cs) eo.inOrder) <;> rfl)
 
 /-! ## `VTree::from_dtree` -/
 
